@@ -138,6 +138,9 @@ impl Story {
         );
 
         self.reset_globals()?;
+        // Whatever the last continue left readable went with the old state; the
+        // warning recorded now belongs to the first continue of the new one.
+        self.warnings_left_readable = false;
         self.warn_if_ink_version_differs();
 
         Ok(())
